@@ -23,7 +23,9 @@ PROP = {
             "statement), two open transactions inserting the same key and ending in commit / rollback / drop; at most one finding "
             "feature per case: UPDATE of a key column (away from and to a key, also concurrently with an INSERT of that key), "
             "delete + re-insert of a key inside one transaction, a rolled-back key update, key updates from "
-            "NULL / inside a multi-column key, multi-row INSERT failing on its last row. After every commit the table is read "
+            "NULL / inside a multi-column key, multi-row INSERT failing on its last row. A second family (60 / 600 cases): a table with TWO unique keys (two UNIQUE "
+            "columns, two unique indexes, or mixed), 4–8 rows with NULL in one key and a value in the other (NULL on either side), "
+            "then an INSERT repeating every non-NULL key value. After every commit the table is read "
             "(`db sel u`) and checked by `constraintsHold` on both sides (PROPFAIL). Non-trivial (`nt`) = some statement or commit of "
             "the case has to be decided by a constraint; distinct = distinct case line.",
     "assumptions": [
